@@ -85,13 +85,14 @@ Print Assumptions C10_escaped_text_is_literal.
 
 (** A message assembled from well-formed template text, the indent placeholder and escaped text
     renders without an error, and shows each text unchanged; the run details header of ui.py is
-    assembled that way (details_escaped), output goes through that rendering (output_passes_ind),
+    assembled that way (details_escaped), so are the diagnostics about improper format strings in a command
+    (format_issue_messages_escaped), output goes through that rendering (output_passes_ind),
     configuration errors are turned into UIError with an escaped message and printed through it. *)
 Theorem C10_messages_never_fail :
   (forall ind ps,
      (forall t, In (PLit t) ps -> exists r, py_format ind t = FOk r) ->
      py_format ind (concat (map piece_tmpl ps)) = FOk (concat (map (piece_text ind) ps)))
-  /\ details_escaped = true /\ output_passes_ind = true
+  /\ details_escaped = true /\ output_passes_ind = true /\ format_issue_messages_escaped = true
   /\ config_errors_are_ui_errors = true /\ ui_error_printed_through_format = true
   /\ (forall ind m, py_format ind ([10%N] ++ escape_braces m ++ [10%N]) = FOk ([10%N] ++ m ++ [10%N])).
 Proof.
